@@ -519,6 +519,9 @@ func edited(pr hs.Parrot, what string) client {
 						continue
 					}
 				case *tls.KeyShareExtension:
+					if what == "drop-keyshare-ext" {
+						continue
+					}
 					if what == "drop-keyshare" && len(x.KeyShares) > 1 {
 						// keep everything up to and including the first real share
 						for i, ks := range x.KeyShares {
@@ -529,6 +532,9 @@ func edited(pr hs.Parrot, what string) client {
 						}
 					}
 				case *tls.SupportedCurvesExtension:
+					if what == "drop-groups-ext" {
+						continue
+					}
 					if what == "drop-group" && len(x.Curves) > 2 {
 						x.Curves = x.Curves[:len(x.Curves)-1]
 					}
@@ -570,7 +576,7 @@ func sequenceClients(quick bool) []client {
 		cls = append(cls, represet(must("Edge_106"), must("IOS_14")), represet(must("Chrome_131"), must("Firefox_65")), represet(must("Safari_16_0"), must("Chrome_133")))
 	}
 	for _, b := range bases {
-		for _, what := range []string{"drop-certcomp", "drop-alpn", "drop-keyshare", "drop-group", "drop-suite"} {
+		for _, what := range []string{"drop-certcomp", "drop-alpn", "drop-keyshare", "drop-group", "drop-suite", "drop-keyshare-ext", "drop-groups-ext"} {
 			cls = append(cls, edited(must(b), what))
 		}
 	}
